@@ -1677,6 +1677,9 @@ func (s *levelsController) get(key []byte, maxVs y.ValueStruct, startLevel int) 
 		if h.level < startLevel {
 			continue
 		}
+		if y.VerifEnabled {
+			y.VerifGate("get.level", h.level)
+		}
 		vs, err := h.get(key) // Calls h.RLock() and h.RUnlock().
 		if err != nil {
 			return y.ValueStruct{}, y.Wrapf(err, "get key: %q", key)
